@@ -733,9 +733,32 @@ func (b *builder) splice(call *ast.CallExpr, lhs []ast.Expr, tok token.Token, ta
 		return false
 	}
 	if decl.Type.Results != nil {
+		// named results are fine as documentation: refused only when the body refers to one of them (or returns bare)
+		named := map[string]bool{}
 		for _, f := range decl.Type.Results.List {
-			if len(f.Names) > 0 {
-				return false // named results
+			for _, n := range f.Names {
+				if n.Name != "_" {
+					named[n.Name] = true
+				}
+			}
+		}
+		if len(named) > 0 {
+			used := false
+			ast.Inspect(decl.Body, func(n ast.Node) bool {
+				switch x := n.(type) {
+				case *ast.Ident:
+					if named[x.Name] {
+						used = true
+					}
+				case *ast.ReturnStmt:
+					if len(x.Results) == 0 {
+						used = true
+					}
+				}
+				return !used
+			})
+			if used {
+				return false
 			}
 		}
 	}
